@@ -109,3 +109,24 @@ def analyze(mod, name, boxes, **kw):
     res = an.run(st)
     res.analyzer = an
     return res
+
+
+def init_state_from(fn, template, forms):
+    """initial state in which parameter k holds the form forms[k] (over symbols of `template`, whose symbol
+    bounds and constraints are inherited): abstract re-execution of an entry point on an intermediate value"""
+    st = State()
+    st.block = fn.order[0]
+    st.prev = None
+    st.bounds = dict(template.bounds)
+    st.cons = dict(template.cons)
+    st.cmod = dict(template.cmod)
+    st.prodl = dict(template.prodl)
+    st.prod = dict(template.prod)
+    st.fb = dict(template.fb)
+    for k, (pn, ty) in enumerate(fn.params):
+        lin = forms[k]
+        lo, hi = st.rng_lin_int(lin)
+        tlo, thi = sgn_rng(ty.bits)
+        lo, hi = max(lo, tlo), min(hi, thi)
+        st.env[pn] = IntV(ty.bits, lin, lo, hi)
+    return st
